@@ -189,15 +189,31 @@ func (g *fkGen) where(tn string) *Expr {
 	}
 }
 
+func (g *fkGen) isParent(tn string) bool {
+	for _, f := range g.h.FKs {
+		if f.Parent == tn {
+			return true
+		}
+	}
+	return false
+}
+
 func (g *fkGen) stmt() *Stmt {
 	tn := g.h.Names[g.r.Intn(len(g.h.Names))]
+	kind := g.r.Intn(20)
+	if kind >= 7 && kind < 16 && !g.isParent(tn) && g.r.Intn(3) > 0 {
+		// deletes and key updates mostly hit referenced tables
+		for try := 0; try < 4 && !g.isParent(tn); try++ {
+			tn = g.h.Names[g.r.Intn(len(g.h.Names))]
+		}
+	}
 	t := g.h.Tables[tn]
 	all := make([]int, len(t.Cols))
 	for i := range all {
 		all[i] = i + 1
 	}
-	switch k := g.r.Intn(20); {
-	case k < 9: // INSERT (1-3 rows)
+	switch k := kind; {
+	case k < 7: // INSERT (1-3 rows)
 		n := 1
 		if g.r.Intn(3) == 0 {
 			n = 2 + g.r.Intn(2)
@@ -211,7 +227,7 @@ func (g *fkGen) stmt() *Stmt {
 			rows = append(rows, row)
 		}
 		return Insert(tn, "plain", all, rows, nil)
-	case k < 13: // DELETE
+	case k < 12: // DELETE
 		var order []sqlast.Ord
 		limit := -1
 		if g.r.Intn(5) == 0 {
